@@ -205,9 +205,93 @@ fn raw_line_offset(raw: &RawOutcome, src: &str) -> usize {
     }
 }
 
+/// impl -> spec: drive the derived receivers with random inputs that are longer / split into more attributes than the
+/// exhaustive bounds, and log what the real parser did in the specification's vocabulary.
+fn record(corpus: &str, seed: u64, n: usize, out: &str) {
+    use std::io::Write;
+    let decls = read_ndjson(corpus);
+    let roots: Vec<&Value> = decls.iter().filter(|d| d["root"] == true && !d["alpha"].as_array().unwrap().is_empty()
+        && !d["fields"].as_array().unwrap().iter().any(|f| f["ty"]["k"] == "map")).collect();
+    let mut rng = Rng::new(seed);
+    let mut f = std::io::BufWriter::new(std::fs::File::create(out).unwrap());
+    let mut events = 0;
+    for _ in 0..n {
+        let d = *rng.pick(&roots);
+        let alpha = d["alpha"].as_array().unwrap();
+        let elem = d["trait"] != "FromMeta";
+        let mut attrs: Vec<Value> = vec![];
+        if elem {
+            let names: Vec<&str> = d["attr_names"].as_array().unwrap().iter().map(|s| s.as_str().unwrap()).collect();
+            let nattrs = 1 + rng.below(5);
+            for _ in 0..nattrs {
+                match rng.below(10) {
+                    0 => attrs.push(json!({"path": "doc", "form": "nv", "items": []})),
+                    1 => attrs.push(json!({"path": "keep", "form": "junk", "items": []})),
+                    2 => attrs.push(json!({"path": "tool::x", "form": "word", "items": []})),
+                    3 if !names.is_empty() => { let form = ["word", "nv", "junk"][rng.below(3)]; attrs.push(json!({"path": names[0], "form": form, "items": []})) }
+                    _ if !names.is_empty() => {
+                        let k = rng.below(4);
+                        let items: Vec<Value> = (0..k).map(|_| rng.pick(alpha).clone()).collect();
+                        attrs.push(json!({"path": *rng.pick(&names), "form": "list", "items": items}));
+                    }
+                    _ => attrs.push(json!({"path": "doc", "form": "nv", "items": []})),
+                }
+            }
+        } else {
+            let k = rng.below(9);
+            let items: Vec<Value> = (0..k).map(|_| rng.pick(alpha).clone()).collect();
+            attrs.push(json!({"path": "root", "form": "list", "items": items}));
+        }
+        let attrs = Value::Array(attrs);
+        let src = attrs_text(&attrs);
+        let raw = dispatch(d["id"].as_u64().unwrap(), &src);
+        let leaves: Vec<Value> = raw.leaves.iter().map(|l| {
+            let cls = match l.kind.as_str() { "unknown" | "dup" | "missing" => l.kind.clone(), "toofew" | "toomany" => l.kind.clone(), _ => "other".to_string() };
+            let n = if ["unknown", "dup", "missing"].contains(&l.kind.as_str()) { l.name.clone() } else { String::new() };
+            let loc: Vec<String> = l.path.iter().map(|s| { if let Some(i) = s.find('[') { if s.ends_with(']') { return format!("{}[]", &s[..i]); } } s.clone() }).collect();
+            let (spos, exact) = match l.span { None => (vec![], false), Some(sp) => deepest(&raw.attrs, sp) };
+            json!({"cls": cls, "n": n, "loc": loc, "spos": spos, "exact": exact, "alt": l.alt})
+        }).collect();
+        let ev = json!({"did": d["id"], "attrs": attrs, "panic": raw.panic.is_some(), "ok": raw.ok.is_some(),
+                        "v": raw.ok.clone().unwrap_or(json!([])), "leaves": leaves,
+                        "fwd": raw.fwd.clone().map(|f| json!(f)).unwrap_or(json!([])), "has_fwd": raw.fwd.is_some()});
+        writeln!(f, "{}", ev).unwrap();
+        events += 1;
+    }
+    println!("{}", json!({"events": events, "runs": events}));
+}
+
+/// the deepest position (attribute, item, nested item ...) whose item range contains the span, and whether it equals it
+fn deepest(attrs: &[syn::Attribute], sp: vh::input::Range) -> (Vec<u64>, bool) {
+    fn walk(tokens: proc_macro2::TokenStream, prefix: &mut Vec<u64>, sp: &vh::input::Range, best: &mut (Vec<u64>, bool)) {
+        for (j, n) in vh::input::split(tokens).into_iter().enumerate() {
+            let r = match &n { vh::input::Node::Meta(m) => vh::input::Range::of(syn::spanned::Spanned::span(m)), vh::input::Node::Lit(l) => vh::input::Range::of(syn::spanned::Spanned::span(l)) };
+            if r.contains(sp) {
+                prefix.push(j as u64 + 1);
+                *best = (prefix.clone(), r == *sp);
+                if let vh::input::Node::Meta(syn::Meta::List(l)) = &n { walk(l.tokens.clone(), prefix, sp, best); }
+                prefix.pop();
+            }
+        }
+    }
+    let mut best = (vec![], false);
+    for (a, attr) in attrs.iter().enumerate() {
+        let r = vh::input::Range::of(syn::spanned::Spanned::span(attr));
+        if r.contains(&sp) {
+            best = (vec![a as u64 + 1], false);
+            if let syn::Meta::List(l) = &attr.meta { let mut p = vec![a as u64 + 1]; walk(l.tokens.clone(), &mut p, &sp, &mut best); }
+        }
+    }
+    best
+}
+
 fn main() {
     if std::env::var("VH_DEBUG").is_err() { std::panic::set_hook(Box::new(|_| {})); }
     let args: Vec<String> = std::env::args().collect();
+    if args.len() >= 6 && args[1] == "record" {
+        record(&args[2], args[3].parse().unwrap(), args[4].parse().unwrap(), &args[5]);
+        return;
+    }
     if args.len() >= 3 && args[1] == "replay-body" {
         replay_body(&args[2]);
         return;
